@@ -441,8 +441,9 @@ func (m *Model) RandomStep(r *rng.R) {
 			m.Close(h) // close again
 		}
 	case x < 15:
-		// CloseAndDelete after Close on the same handle is API misuse (no clause covers it): open handles only
-		if h := m.pick(r, func(h *handle) bool { return !h.closed && !h.dead }); h != nil {
+		// CloseAndDelete through an open handle, or (the usual clean-up idiom) through a handle that was closed
+		// before, provided no other handle of that bucket is open at that moment
+		if h := m.pick(r, func(h *handle) bool { return !h.dead && (!h.closed || m.openCount(h.st) == 0) }); h != nil {
 			m.CloseAndDelete(h)
 		}
 	default:
@@ -499,6 +500,8 @@ func (m *Model) EnumStep(k int, sel int) {
 	case 9:
 		if h := open(); h != nil {
 			m.CloseAndDelete(h)
+		} else if h := notOpen(); h != nil && !h.dead && m.openCount(h.st) == 0 {
+			m.CloseAndDelete(h) // clean-up idiom: Close, then CloseAndDelete on the same handle
 		}
 	case 10:
 		if h := open(); h != nil {
